@@ -37,6 +37,104 @@ impl Track {
     }
 }
 
+/// C09: an independent, deliberately small tracker of what the property says about the server session; it looks only at
+/// the events the real session raised and the verdicts of accept/reject calls
+#[derive(Default)]
+pub struct SrvRef {
+    seen_ids: std::collections::HashSet<u32>,
+    pending: std::collections::HashMap<u32, (u8, String, String)>, // id -> (0 conn | 1 publish | 2 play, app, key)
+    accepted_app: Option<String>,
+    publishing: Vec<String>,   // keys with an accepted publish request not yet finished
+    playing: Vec<String>,
+}
+
+impl SrvRef {
+    fn on_events(&mut self, rs: &[ServerSessionResult]) -> Option<String> {
+        for r in rs {
+            if let ServerSessionResult::RaisedEvent(e) = r {
+                use ServerSessionEvent as E;
+                match e {
+                    E::ConnectionRequested { request_id, app_name } => { if !self.seen_ids.insert(*request_id) { return Some(format!("request-id-{}-issued-twice", request_id)); } self.pending.insert(*request_id, (0, app_name.clone(), String::new())); }
+                    E::PublishStreamRequested { request_id, app_name, stream_key, .. } => {
+                        if self.accepted_app.is_none() { return Some("publish-request-surfaced-before-a-connection-was-accepted".into()); }
+                        if Some(app_name) != self.accepted_app.as_ref() { return Some(format!("publish-request-tagged-with-app-{:?}-accepted-was-{:?}", app_name, self.accepted_app)); }
+                        if !self.seen_ids.insert(*request_id) { return Some(format!("request-id-{}-issued-twice", request_id)); }
+                        self.pending.insert(*request_id, (1, app_name.clone(), stream_key.clone()));
+                    }
+                    E::PlayStreamRequested { request_id, app_name, stream_key, .. } => {
+                        if self.accepted_app.is_none() { return Some("play-request-surfaced-before-a-connection-was-accepted".into()); }
+                        if Some(app_name) != self.accepted_app.as_ref() { return Some(format!("play-request-tagged-with-app-{:?}-accepted-was-{:?}", app_name, self.accepted_app)); }
+                        if !self.seen_ids.insert(*request_id) { return Some(format!("request-id-{}-issued-twice", request_id)); }
+                        self.pending.insert(*request_id, (2, app_name.clone(), stream_key.clone()));
+                    }
+                    E::AudioDataReceived { app_name, stream_key, .. } | E::VideoDataReceived { app_name, stream_key, .. } | E::StreamMetadataChanged { app_name, stream_key, .. } => {
+                        if Some(app_name) != self.accepted_app.as_ref() { return Some(format!("media-event-tagged-with-app-{:?}-accepted-was-{:?}", app_name, self.accepted_app)); }
+                        if !self.publishing.contains(stream_key) { return Some(format!("media-event-for-key-{:?}-which-has-no-accepted-unfinished-publish-request", stream_key)); }
+                    }
+                    E::PublishStreamFinished { app_name, stream_key } => {
+                        if Some(app_name) != self.accepted_app.as_ref() { return Some(format!("finished-event-tagged-with-app-{:?}-accepted-was-{:?}", app_name, self.accepted_app)); }
+                        match self.publishing.iter().position(|k| k == stream_key) { Some(i) => { self.publishing.remove(i); } None => return Some(format!("publish-finished-for-key-{:?}-raised-without-or-twice", stream_key)) }
+                    }
+                    E::PlayStreamFinished { app_name, stream_key } => {
+                        if Some(app_name) != self.accepted_app.as_ref() { return Some(format!("finished-event-tagged-with-app-{:?}-accepted-was-{:?}", app_name, self.accepted_app)); }
+                        match self.playing.iter().position(|k| k == stream_key) { Some(i) => { self.playing.remove(i); } None => return Some(format!("play-finished-for-key-{:?}-raised-without-or-twice", stream_key)) }
+                    }
+                    _ => {}
+                }
+            }
+        }
+        None
+    }
+    /// verdict of accept (or reject) of `id`: `ok` = the call returned Ok, `inactive` = it failed for a missing stream
+    fn on_answer(&mut self, id: u32, accept: bool, ok: bool, err: &str) -> Option<String> {
+        match self.pending.remove(&id) {
+            None => if ok || err != "err:requestid" { Some(format!("id-{}-is-not-outstanding-but-the-call-returned-{}", id, if ok { "Ok" } else { err })) } else { None },
+            Some((kind, app, key)) => {
+                if !ok && !(accept && kind != 0 && err == "err:inactive") { return Some(format!("outstanding-id-{}-refused-with-{}", id, err)); }
+                if accept && ok { match kind { 0 => self.accepted_app = Some(app), 1 => self.publishing.push(key), _ => self.playing.push(key) } }
+                None
+            }
+        }
+    }
+}
+
+/// C10: independent tracker of the client's outstanding transactions
+#[derive(Default)]
+pub struct CliRef {
+    next_tid: u32,
+    outstanding: std::collections::HashMap<u32, u8>,   // tid -> 0 connect | 1 createStream
+    peer: Option<RefDecoder>,
+}
+
+impl CliRef {
+    fn new() -> Self { CliRef { next_tid: 1, outstanding: Default::default(), peer: Some(RefDecoder::new(false)) } }
+    fn on_request(&mut self, ok: bool, kind: u8) { if ok { self.outstanding.insert(self.next_tid, kind); self.next_tid += 1; } }
+    /// one input call that carries exactly one complete command message `_result` / `_error`
+    fn on_input(&mut self, data: &[u8], out: &str) -> Option<String> {
+        let rd = self.peer.as_mut()?;
+        let ms = match rd.decode_all(data) { Ok(m) => m, Err(_) => { self.peer = None; return None; } };   // desynchronised: stop judging
+        let cmds: Vec<&RMsg> = ms.iter().filter(|m| m.typ == 20).collect();
+        if ms.len() != 1 || cmds.len() != 1 { 
+            // still keep the bookkeeping right for every answer in the call
+            for m in cmds { if let Ok(vs) = refcodec::decode(&m.data) { if let (Some(crate::amftext::V::Str(n)), Some(crate::amftext::V::Number(t))) = (vs.get(0), vs.get(1)) { if n == b"_result" || n == b"_error" { self.outstanding.remove(&(f64::from_bits(*t) as u32)); } } } }
+            return None;
+        }
+        let vs = refcodec::decode(&cmds[0].data).ok()?;
+        let (name, tid) = match (vs.get(0), vs.get(1)) { (Some(crate::amftext::V::Str(n)), Some(crate::amftext::V::Number(t))) => (n.clone(), f64::from_bits(*t) as u32), _ => return None };
+        if name != b"_result" && name != b"_error" { return None; }
+        if vs.len() < 3 { return None; }
+        let known = self.outstanding.remove(&tid).is_some();
+        let reported_unknown = out.contains("ev:unktxn:");
+        if !known && !reported_unknown && !out.contains("err:") { return Some(format!("answer-to-transaction-{}-which-is-not-outstanding-was-not-reported-as-unknown", tid)); }
+        // acknowledgements are a function of the call size, not of the message
+        let non_ack_out = out.split(' ').any(|t| t.starts_with("out:") && t.split(':').nth(3) != Some("UNDECODABLE") && t.split(':').nth(4).map(|m| !m.is_empty() && !m.starts_with("3.0.")).unwrap_or(false));
+        let _ = non_ack_out; // (packets are not judged: after an earlier failed input call the output stream may be unreadable, K2)
+        if !known && (out.contains("ev:connok") || out.contains("ev:connrej")) { return Some(format!("answer-to-transaction-{}-which-is-not-outstanding-was-applied", tid)); }
+        if known && reported_unknown { return Some(format!("answer-to-outstanding-transaction-{}-reported-as-unknown", tid)); }
+        None
+    }
+}
+
 pub struct SessSt {
     pub srv: Option<ServerSession>,
     pub srv_out: RefDecoder,
@@ -44,11 +142,13 @@ pub struct SessSt {
     pub cli_out: RefDecoder,
     pub srv_track: Track,
     pub cli_track: Track,
+    pub srv_ref: SrvRef,
+    pub cli_ref: CliRef,
     pub log: Vec<String>,     // the session ops of this case, for replaying the history into fresh sessions (C15 oracle)
 }
 
 impl SessSt {
-    pub fn new() -> Self { SessSt { srv: None, srv_out: RefDecoder::new(false), cli: None, cli_out: RefDecoder::new(false), srv_track: Track::new(), cli_track: Track::new(), log: vec![] } }
+    pub fn new() -> Self { SessSt { srv: None, srv_out: RefDecoder::new(false), cli: None, cli_out: RefDecoder::new(false), srv_track: Track::new(), cli_track: Track::new(), srv_ref: SrvRef::default(), cli_ref: CliRef::new(), log: vec![] } }
 }
 
 fn record_srv(t: &mut Track, rs: &[ServerSessionResult]) { for r in rs { if let ServerSessionResult::OutboundResponse(p) = r { t.packets.push((p.bytes.clone(), p.can_be_dropped, false)); } } }
@@ -301,7 +401,7 @@ fn op_inner(st: &mut SessSt, toks: &[&str]) -> Option<String> {
             st.srv_out = RefDecoder::new(false);
             match ServerSession::new(c) {
                 Err(e) => { st.srv = None; srv_err(&e) }
-                Ok((s, rs)) => { st.srv = Some(s); st.srv_track = Track::new(); record_srv(&mut st.srv_track, &rs); show_srv_results(&mut st.srv_out, &rs) }
+                Ok((s, rs)) => { st.srv = Some(s); st.srv_track = Track::new(); st.srv_ref = SrvRef::default(); record_srv(&mut st.srv_track, &rs); show_srv_results(&mut st.srv_out, &rs) }
             }
         }
         ["srv.in", now, sizes, data] => {
@@ -311,17 +411,25 @@ fn op_inner(st: &mut SessSt, toks: &[&str]) -> Option<String> {
             let mut outs = vec![];
             st.srv_track.saw_input(&data);
             for c in split_calls(&sizes, &data) {
-                match s.handle_input(c) { Err(e) => { st.srv_track.input_failed = true; outs.push(srv_err(&e)); break; } Ok(rs) => { record_srv(&mut st.srv_track, &rs); outs.push(show_srv_results(&mut st.srv_out, &rs)) } }
+                match s.handle_input(c) { Err(e) => { st.srv_track.input_failed = true; outs.push(srv_err(&e)); break; } Ok(rs) => { record_srv(&mut st.srv_track, &rs); let mut o = show_srv_results(&mut st.srv_out, &rs); if let Some(v) = st.srv_ref.on_events(&rs) { o.push_str(" ORACLE-FAIL:"); o.push_str(&v.replace(' ', "_")); } outs.push(o) } }
             }
             outs.join(" | ")
         }
         ["srv.accept", now, id] => {
             let s = st.srv.as_mut()?; s.verif_set_uptime_ms(Some(now.parse().ok()?));
-            match s.accept_request(id.parse().ok()?) { Err(e) => srv_err(&e), Ok(rs) => { record_srv(&mut st.srv_track, &rs); show_srv_results(&mut st.srv_out, &rs) } }
+            let idv: u32 = id.parse().ok()?;
+            match s.accept_request(idv) {
+                Err(e) => { let k = srv_err(&e); match st.srv_ref.on_answer(idv, true, false, &k) { Some(v) => format!("{} ORACLE-FAIL:{}", k, v.replace(' ', "_")), None => k } }
+                Ok(rs) => { record_srv(&mut st.srv_track, &rs); let o = show_srv_results(&mut st.srv_out, &rs); match st.srv_ref.on_answer(idv, true, true, "") { Some(v) => format!("{} ORACLE-FAIL:{}", o, v.replace(' ', "_")), None => o } }
+            }
         }
         ["srv.reject", now, id, code, desc] => {
             let s = st.srv.as_mut()?; s.verif_set_uptime_ms(Some(now.parse().ok()?));
-            match s.reject_request(id.parse().ok()?, &s_of(parse_bytes(code)?)?, &s_of(parse_bytes(desc)?)?) { Err(e) => srv_err(&e), Ok(rs) => { record_srv(&mut st.srv_track, &rs); show_srv_results(&mut st.srv_out, &rs) } }
+            let idv: u32 = id.parse().ok()?;
+            match s.reject_request(idv, &s_of(parse_bytes(code)?)?, &s_of(parse_bytes(desc)?)?) {
+                Err(e) => { let k = srv_err(&e); match st.srv_ref.on_answer(idv, false, false, &k) { Some(v) => format!("{} ORACLE-FAIL:{}", k, v.replace(' ', "_")), None => k } }
+                Ok(rs) => { record_srv(&mut st.srv_track, &rs); let o = show_srv_results(&mut st.srv_out, &rs); match st.srv_ref.on_answer(idv, false, true, "") { Some(v) => format!("{} ORACLE-FAIL:{}", o, v.replace(' ', "_")), None => o } }
+            }
         }
         ["srv.media", kind, sid, ts, drop, data] => {
             let s = st.srv.as_mut()?;
@@ -350,7 +458,7 @@ fn op_inner(st: &mut SessSt, toks: &[&str]) -> Option<String> {
             c.flash_version = s_of(parse_bytes(flash)?)?; c.tc_url = if *tcurl == "_" { None } else { Some(s_of(parse_bytes(tcurl)?)?) };
             st.cli_out = RefDecoder::new(false);
             rml_rtmp::sessions::verif_hooks::set_initial_uptime_ms(Some(0));
-            st.cli_track = Track::new();
+            st.cli_track = Track::new(); st.cli_ref = CliRef::new();
             match ClientSession::new(c) { Err(e) => { st.cli = None; cli_err(&e) } Ok((s, _)) => { st.cli = Some(s); "ok".into() } }
         }
         ["cli.in", now, sizes, data] => {
@@ -362,20 +470,28 @@ fn op_inner(st: &mut SessSt, toks: &[&str]) -> Option<String> {
             for c in split_calls(&sizes, &data) {
                 match s.handle_input(c) { Err(e) => { st.cli_track.input_failed = true; outs.push(cli_err(&e)); break; } Ok(rs) => { record_cli(&mut st.cli_track, &rs, false); outs.push(show_cli_results(&mut st.cli_out, &rs)) } }
             }
-            outs.join(" | ")
+            let mut joined = outs.join(" | ");
+            if let Some(v) = st.cli_ref.on_input(&data, &joined) { joined.push_str(" ORACLE-FAIL:"); joined.push_str(&v.replace(' ', "_")); }
+            joined
         }
         ["cli.connect", now, app] => {
             let s = st.cli.as_mut()?; s.verif_set_uptime_ms(Some(now.parse().ok()?));
-            match s.request_connection(s_of(parse_bytes(app)?)?) { Err(e) => cli_err(&e), Ok(r) => { let rs = [r]; record_cli(&mut st.cli_track, &rs, CLI_DROP.with(|d| d.get())); show_cli_results(&mut st.cli_out, &rs) } }
+            let rr = s.request_connection(s_of(parse_bytes(app)?)?);
+            st.cli_ref.on_request(rr.is_ok(), 0);
+            match rr { Err(e) => cli_err(&e), Ok(r) => { let rs = [r]; record_cli(&mut st.cli_track, &rs, CLI_DROP.with(|d| d.get())); show_cli_results(&mut st.cli_out, &rs) } }
         }
         ["cli.play", now, key] => {
             let s = st.cli.as_mut()?; s.verif_set_uptime_ms(Some(now.parse().ok()?));
-            match s.request_playback(s_of(parse_bytes(key)?)?) { Err(e) => cli_err(&e), Ok(r) => { let rs = [r]; record_cli(&mut st.cli_track, &rs, CLI_DROP.with(|d| d.get())); show_cli_results(&mut st.cli_out, &rs) } }
+            let rr = s.request_playback(s_of(parse_bytes(key)?)?);
+            st.cli_ref.on_request(rr.is_ok(), 1);
+            match rr { Err(e) => cli_err(&e), Ok(r) => { let rs = [r]; record_cli(&mut st.cli_track, &rs, CLI_DROP.with(|d| d.get())); show_cli_results(&mut st.cli_out, &rs) } }
         }
         ["cli.publish", now, key, ty] => {
             let s = st.cli.as_mut()?; s.verif_set_uptime_ms(Some(now.parse().ok()?));
             let t = match *ty { "live" => PublishRequestType::Live, "record" => PublishRequestType::Record, "append" => PublishRequestType::Append, _ => return None };
-            match s.request_publishing(s_of(parse_bytes(key)?)?, t) { Err(e) => cli_err(&e), Ok(r) => { let rs = [r]; record_cli(&mut st.cli_track, &rs, CLI_DROP.with(|d| d.get())); show_cli_results(&mut st.cli_out, &rs) } }
+            let rr = s.request_publishing(s_of(parse_bytes(key)?)?, t);
+            st.cli_ref.on_request(rr.is_ok(), 1);
+            match rr { Err(e) => cli_err(&e), Ok(r) => { let rs = [r]; record_cli(&mut st.cli_track, &rs, CLI_DROP.with(|d| d.get())); show_cli_results(&mut st.cli_out, &rs) } }
         }
         ["cli.stop", now, what] => {
             let s = st.cli.as_mut()?; s.verif_set_uptime_ms(Some(now.parse().ok()?));
@@ -416,34 +532,29 @@ fn op_inner(st: &mut SessSt, toks: &[&str]) -> Option<String> {
 pub fn unused(_: &refcodec::Pick) {}
 
 
-fn window_msg_bytes(ser: &mut rml_rtmp::chunk_io::ChunkSerializer, w: u32) -> Vec<u8> {
-    use rml_rtmp::messages::RtmpMessage;
-    let p = RtmpMessage::WindowAcknowledgement { size: w }.into_message_payload(RtmpTimestamp::new(0), 0).unwrap();
-    ser.serialize(&p, false, false).unwrap().bytes
-}
-
 fn ack_run(server: bool, w: u32, sizes: &[usize], rewin: Option<(usize, u32)>) -> String {
     use rml_rtmp::chunk_io::ChunkSerializer;
     use rml_rtmp::messages::{MessagePayload, RtmpMessage};
+    rml_rtmp::sessions::verif_hooks::set_initial_uptime_ms(Some(0));
     let mut peer = ChunkSerializer::new();
     // padding: a long stream of small unknown-type messages (type 22) on stream 9: neither session reacts with packets
     let total: usize = sizes.iter().sum::<usize>() + 64;
     let mut pad = vec![];
-    while pad.len() < total + 200 {
+    let mut boundaries = vec![0usize];
+    while pad.len() < total + 400 {
         let m = MessagePayload { timestamp: RtmpTimestamp::new(0), type_id: 22, message_stream_id: 9, data: Bytes::from(vec![7u8; 50]) };
         pad.extend_from_slice(&peer.serialize(&m, false, false).unwrap().bytes);
+        boundaries.push(pad.len());
     }
     enum S { Srv(ServerSession), Cli(ClientSession) }
     let mut sess = if server { S::Srv(ServerSession::new(ServerSessionConfig::new()).unwrap().0) } else { S::Cli(ClientSession::new(ClientSessionConfig::new()).unwrap().0) };
-    let mut feed = |sess: &mut S, data: &[u8]| -> Result<Vec<u32>, String> {
-        // returns the sequence numbers acknowledged in this call
+    let feed = |sess: &mut S, data: &[u8]| -> Result<Vec<u32>, String> {
         let mut acks = vec![];
         let pk: Vec<Packet> = match sess {
             S::Srv(s) => s.handle_input(data).map_err(|e| srv_err(&e))?.into_iter().filter_map(|r| if let ServerSessionResult::OutboundResponse(p) = r { Some(p) } else { None }).collect(),
             S::Cli(s) => s.handle_input(data).map_err(|e| cli_err(&e))?.into_iter().filter_map(|r| if let ClientSessionResult::OutboundResponse(p) = r { Some(p) } else { None }).collect(),
         };
         for p in pk {
-            // an Acknowledgement packet is one chunk on csid 2 whose message type is 3; find it with a throw-away reader
             let n = p.bytes.len();
             let b0 = p.bytes[0];
             let fmt = b0 >> 6;
@@ -454,43 +565,52 @@ fn ack_run(server: bool, w: u32, sizes: &[usize], rewin: Option<(usize, u32)>) -
         }
         Ok(acks)
     };
-    // the call that delivers the window: nothing is counted in it
-    let wm = window_msg_bytes(&mut ChunkSerializer::new(), w);
-    // the window message must be part of the same chunk stream as the padding: send it first, with a fresh serializer
-    // state on csid 2 (the padding uses csid 6), so both are valid together
+    // the call that delivers the window: nothing is counted in it (the window is not known before the call)
+    let wm = { let p = RtmpMessage::WindowAcknowledgement { size: w }.into_message_payload(RtmpTimestamp::new(0), 0).unwrap(); peer.serialize(&p, false, false).unwrap().bytes };
     match feed(&mut sess, &wm) { Ok(a) if a.is_empty() => {}, Ok(_) => return "! FAIL acknowledgement-in-the-call-that-delivered-the-window".into(), Err(e) => return format!("! FAIL error {}", e) }
     let mut since: u64 = 0;
     let mut win = w as u64;
     let mut pos = 0usize;
     let mut sum_acked: u64 = 0;
     let mut sum_in: u64 = 0;
+    let mut step = |sess: &mut S, data: &[u8], i: usize, since: &mut u64, win: u64, sum_acked: &mut u64, sum_in: &mut u64, check_lt: bool| -> Option<String> {
+        let got = match feed(sess, data) { Ok(a) => a, Err(e) => return Some(format!("! FAIL error {} in call {}", e, i)) };
+        let n = data.len() as u64;
+        *sum_in += n;
+        let c = *since + n;
+        let want: Vec<u32> = if c >= win { vec![c as u32] } else { vec![] };
+        if got != want { return Some(format!("! FAIL call {} (size {}, outstanding {} window {}) acknowledged {:?} expected {:?}", i, n, since, win, got, want)); }
+        *since = if c >= win { 0 } else { c };
+        *sum_acked += want.iter().map(|x| *x as u64).sum::<u64>();
+        if check_lt && *since >= win { return Some(format!("! FAIL outstanding {} not below window {}", since, win)); }
+        None
+    };
     for (i, n) in sizes.iter().enumerate() {
-        let mut data = pad[pos..pos + n].to_vec();
-        pos += n;
-        let mut counted = *n as u64;
         if let Some((idx, w2)) = rewin {
             if idx == i {
-                // re-announce the window in this call (appended at a message boundary is not guaranteed: use its own call instead)
-                let wm2 = window_msg_bytes(&mut ChunkSerializer::new(), w2);
-                // only legal at a chunk boundary of the padding stream: deliver padding up to the next boundary first
-                let _ = &wm2;
-                data = data; counted = *n as u64;
+                // re-announce the window mid-stream: first complete the padding message in flight, then the announcement,
+                // all in one call, counted under the window known BEFORE the call
+                let next_b = *boundaries.iter().find(|b| **b >= pos).unwrap();
+                let mut data = pad[pos..next_b].to_vec();
+                pos = next_b;
+                let p = RtmpMessage::WindowAcknowledgement { size: w2 }.into_message_payload(RtmpTimestamp::new(0), 0).unwrap();
+                data.extend_from_slice(&peer_window(&mut peer, p));
+                if let Some(e) = step(&mut sess, &data, i, &mut since, win, &mut sum_acked, &mut sum_in, false) { return e; }
+                win = w2 as u64;
             }
         }
-        let got = match feed(&mut sess, &data) { Ok(a) => a, Err(e) => return format!("! FAIL error {} in call {}", e, i) };
-        sum_in += counted;
-        let c = since + counted;
-        let want: Vec<u32> = if c >= win { vec![c as u32] } else { vec![] };
-        if got != want { return format!("! FAIL call {} (size {}, outstanding {} window {}) acknowledged {:?} expected {:?}", i, n, since, win, got, want); }
-        since = if c >= win { 0 } else { c };
-        sum_acked += want.iter().map(|x| *x as u64).sum::<u64>();
-        if since >= win { return format!("! FAIL outstanding {} not below window {}", since, win); }
-        let _ = &mut win;
+        let data = pad[pos..pos + n].to_vec();
+        pos += n;
+        let check_lt = rewin.map(|(idx, _)| i < idx).unwrap_or(true) || since < win;
+        if let Some(e) = step(&mut sess, &data, i, &mut since, win, &mut sum_acked, &mut sum_in, check_lt) { return e; }
     }
     if sum_acked + since != sum_in { return "! FAIL conservation".into(); }
     format!("! ok acked={} outstanding={}", sum_acked, since)
 }
 
+fn peer_window(peer: &mut rml_rtmp::chunk_io::ChunkSerializer, p: rml_rtmp::messages::MessagePayload) -> Vec<u8> {
+    peer.serialize(&p, false, false).unwrap().bytes
+}
 
 /// C18 at a given uptime with the REAL clock arithmetic (hook H2 shift): a complete mini scenario, everything the
 /// session returns is read by the strict specification reader, and the timestamps of session-generated messages
